@@ -10,6 +10,90 @@ from simkit.progs import ALL_FEATURES, Gen, GenConfig
 from simkit.runner import RunOutcome
 
 
+SUB_TASKS = '''
+@task()
+def inc(x):
+    hit('inc', x)
+    return mix('inc{salt_inc}', x)
+
+
+@task()
+def add(a, b):
+    hit('add', a, b)
+    return mix('add', a, b)
+
+
+@task()
+def boom(x):
+    hit('boom', x)
+{boom_body}
+
+
+@task()
+def rec(e):
+    return mix('rec', errcode(e))
+
+
+@task()
+def wf(x):
+    return add(inc(x), inc(inc(x)))
+
+
+@task()
+def wf_fail(x):
+    return add(inc(x), boom(x))
+
+
+@task()
+def wf_caught(x):
+    return catch(wf_fail(x), ValueError, rec)
+
+'''
+
+
+def gen_subrun_family(ch: Choices):
+    """k sibling sub-workflows, each either wrapped in subrun(...) with generated options
+    (executor, new_execution, cache settings, limits on a scarce resource) or evaluated directly;
+    returns (source builder, items) -- the builder takes (direct: bool, edit state)."""
+    from simkit.progs import HEADER
+
+    k = 2 + ch.choice(3, "nitems")
+    items = []
+    for i in range(k):
+        wf = ["wf", "wf", "wf_caught", "wf_fail"][ch.choice(4, "wf")]
+        opts = {"executor": ["default", "process"][ch.choice(2, "executor")],
+                "new_execution": bool(ch.choice(2, "new-exec"))}
+        c = ch.choice(4, "cache")
+        if c == 1:
+            opts["cache_scope"] = "NONE"
+        elif c == 2:
+            opts["cache_scope"] = "CSE"
+        elif c == 3:
+            opts["cache"] = False
+        if ch.coin(0.5, "limits"):
+            opts["limits"] = ["sr"]
+        items.append((wf, i, opts, bool(ch.choice(4, "wrapped") != 0)))
+
+    def source(direct: bool, salt_inc: int, boom_raises: bool) -> str:
+        body = ("    raise ValueError('boom-%s' % x)" if boom_raises
+                else "    return mix('boom-fixed', x)")
+        parts = []
+        for wf, i, opts, wrapped in items:
+            call = f"{wf}({i})"
+            if wrapped and not direct:
+                o = ", ".join(f"{a}={v!r}" for a, v in opts.items())
+                call = f"subrun({call}, {o})"
+            parts.append(call)
+        expr = "[" + ", ".join(parts) + "]"
+        if any(wf == "wf_fail" for wf, *_ in items):
+            expr = f"catch_all({expr})"
+        return (HEADER.format(ns="vp")
+                + SUB_TASKS.format(salt_inc=salt_inc or "", boom_body=body)
+                + f"@task()\ndef t0():\n    return {expr}\n")
+
+    return source, items
+
+
 class C38(EngineACheck):
     PROPERTY = "C38"
     RULE = (
@@ -28,9 +112,106 @@ class C38(EngineACheck):
                        "second_execution_reenters_subrun", "subrun_errors"]
     QUICK_SECONDS = 35.0
 
+    def run_family(self, ch: Choices) -> RunOutcome:
+        from simkit.progs import RawProgram
+
+        out = RunOutcome()
+        out.probe("family_programs")
+        source, items = gen_subrun_family(ch)
+        salt, raises = 0, True
+        db = schedsim.fresh_db("subrun-fam.db")
+        nexec = 2 + ch.choice(2, "nexec")
+        history = []
+        w = res = None
+        prog = RawProgram(source(False, salt, raises), limits={"sr": 1})
+        with enginea.ProgramSession(prog) as sess:
+            for ex in range(nexec):
+                desc = "none"
+                if ex > 0:
+                    e = ch.choice(3, "edit")
+                    if e == 1:
+                        salt = (salt + 1) % 3
+                        desc = f"inc body -> {salt}"
+                    elif e == 2 and not any(wf == "wf_caught" for wf, *_ in items):
+                        # (not with a catch in the program: editing a task beneath a catch runs
+                        # into the known C02 finding, with or without subrun)
+                        raises = not raises
+                        desc = f"boom raises -> {raises}"
+                # direct evaluation of the same program version on an empty backend
+                direct = RawProgram(source(True, salt, raises), limits={"sr": 1})
+                sess.reload(direct)
+                dres = enginea.simulate(ch, direct, db_path=schedsim.fresh_db("direct.db"),
+                                        session=sess)
+                prog = RawProgram(source(False, salt, raises), limits={"sr": 1})
+                sess.reload(prog)
+                proglib.reset_hits()
+                res = enginea.simulate(ch, prog, db_path=db, session=sess, backend_in_config=True)
+                w, rec = res.world, res.rec
+                self.fill(out, w, prog, extra_key=str(ex))
+                history.append({"execution": ex, "edit": desc})
+                if res.outcome[0] == "abort":
+                    out.violate("C38.terminates", res.outcome[1], {"history": history})
+                    break
+                if dres.outcome[0] == "abort":
+                    break
+                got, want = refinterp.okey(res.outcome), refinterp.okey(dres.outcome)
+                if got != want:
+                    where = "first-execution" if ex == 0 else "later-execution"
+                    sig = f"family/{where}:" + ("value" if got[0] == "v" else "error:" + got[1][1])
+                    # Known finding: the call node of a subrun records none of the tasks that ran
+                    # inside it, so after an edit of an inner task the (default, shallow) ultimate
+                    # reduction of the subrun still replays the old result.
+                    edited = any(h["edit"] != "none" for h in history)
+                    if edited and got[0] == "v" and want[0] == "v" and len(got[1]) == len(want[1]):
+                        diff = [i - 1 for i in range(1, len(got[1])) if got[1][i] != want[1][i]]
+
+                        def replayable(i):  # noqa: E306
+                            _wf, _i, o, wrapped = items[i]
+                            return (wrapped and o.get("cache", True) is not False
+                                    and o.get("cache_scope") not in ("NONE", "CSE"))
+
+                        if diff and all(replayable(i) for i in diff):
+                            sig = "family/subrun-replayed-after-inner-task-edit"
+                    elif edited and got[0] == "e" and want[0] == "v" and "boom-" in repr(got):
+                        # the replayed result of the subrun is the error of the earlier version
+                        # (a sub-workflow failure comes back as an ordinary result of the subrun's
+                        # root task and is cached like one)
+                        stale = [i for i, (wf, _i, o, wrapped) in enumerate(items)
+                                 if wf == "wf_fail" and wrapped and o.get("cache", True) is not False
+                                 and o.get("cache_scope") not in ("NONE", "CSE")
+                                 and f"boom-{_i}" in repr(got)]
+                        if stale:
+                            sig = "family/subrun-replayed-after-inner-task-edit"
+                    out.violate("C38.equals_direct_evaluation", sig,
+                                {"history": history, "t0": prog.source.split("def t0():")[-1].strip(),
+                                 "subrun": repr(got)[:300], "direct": repr(want)[:300]})
+                    break
+                root_jobs = [rec.jobs[j] for j in rec.order
+                             if rec.jobs[j].task == "redun.subrun_root_task"]
+                if any(r.exec_count > 1 for r in root_jobs):
+                    out.probe("subrun_waited_for_limits")
+                    out.nontrivial = True
+                if ex > 0 and any(r.handoffs for r in root_jobs):
+                    out.probe("second_execution_reenters_subrun")
+                for r in root_jobs:
+                    if r.was_cached and r.handoffs == 0 and r.pre_call_hash is None \
+                            and r.id not in rec.collapsed:
+                        out.violate("C38.no_single_reduction_for_subrun", "cached-without-call-hash",
+                                    {"execution": ex})
+                self.check_job_tree(out, db, rec, ex)
+                if out.violations:
+                    break
+        if w is not None:
+            out.nontrivial = out.nontrivial or w.max_inflight >= 2
+            out.sample = {"t0": prog.source.split("def t0():")[-1].strip(), "history": history,
+                          "schedule_events": [e[2:] for e in w.log[:40]]}
+        return out
+
     def run_one(self, ch: Choices) -> RunOutcome:
         from simkit.progs import walk
 
+        if ch.choice(2, "program-family") == 1:
+            return self.run_family(ch)
         out = RunOutcome()
         feats = (set(ALL_FEATURES) | {"subrun"}) - {"forkjoin", "async", "tags"}
         cfg = GenConfig(features=feats, p_error=0.25, modes=("thread", "thread", "process"),
